@@ -1,4 +1,5 @@
 HARNESS = "c16"
+STALE_RERUN = True   # operands also re-run as stale external polynomials (see check)
 LEVEL = "proof"
 """C16 case generator: bound inference (ib) and Fourier-Motzkin resolution (fm).
 Every random choice comes from the one `rng` passed in.  The last token of a case (#...) is the branch tag the
